@@ -146,14 +146,16 @@ theorem total_counterexample :
 /-- a vector's footer carries its true element count and its dtype token -/
 theorem footer_counts_vector (otherName : Nat → String) (rows : Nat) (v : Col) (out : Out)
     (h : reprVector otherName rows v = .ok out) :
-    out.footer = if v.cells.isEmpty then .emptyVector
-                 else .vector v.cells.length (dtypeText otherName v.dtype) := by
+    out.footer = .vector v.cells.length (dtypeText otherName v.dtype) := by
   unfold reprVector at h
   split at h
-  · cases h; simp [*]
+  · rename_i he
+    cases h
+    have : v.cells.length = 0 := by simpa using he
+    simp [this]
   · split at h
     · cases h
-    · cases h; simp [*]
+    · cases h; rfl
 
 /-- a table's footer carries its true row count × column count -/
 theorem footer_counts_table (otherName : Nat → String) (rows m : Nat) (t : Tab) (out : Out)
